@@ -11,7 +11,7 @@
 use std::{
     collections::{BTreeMap, BTreeSet},
     ffi::{CStr, CString},
-    io::{Read, Write},
+    io::Write,
     os::raw::{c_char, c_int, c_void},
     process::{Command, Stdio},
     sync::atomic::{AtomicBool, Ordering},
@@ -601,6 +601,8 @@ struct ChildInput {
     case: Case,
     skip: Vec<String>,
     selftest: u8,
+    #[serde(default)]
+    timeout_s: u64,
 }
 
 struct Child {
@@ -630,11 +632,11 @@ struct Child {
 }
 
 impl Child {
-    fn new(inp: &ChildInput) -> Child {
+    fn new(inp: &ChildInput, pools: Pools) -> Child {
         Child {
             m: Model::default(),
             elems: BTreeMap::new(),
-            pools: Pools::new(),
+            pools,
             mems: vec![],
             foreign: vec![0xA5u8; 8192],
             skip: inp.skip.iter().cloned().collect(),
@@ -890,7 +892,8 @@ impl Child {
         let np = spec.hs.len();
         let bad_key = bad.map(|pi| format!("{}:{}:{}", spec.name, spec.hs[pi].1, cls[pi].name()));
         if let Some(key) = &bad_key {
-            if !self.probe && self.skip.contains(key) {
+            let coarse = key.rsplit_once(':').map(|x| x.0.to_string()).unwrap_or_default();
+            if !self.probe && (self.skip.contains(key) || self.skip.contains(&coarse)) {
                 self.excluded += 1;
                 emit(json!({"e": "skip", "key": key}));
                 return Ok(Ret::Skipped);
@@ -920,6 +923,11 @@ impl Child {
         IN_CALL.store(true, Ordering::SeqCst);
         let out = unsafe { self.exec(spec.name, &a, &v) };
         IN_CALL.store(false, Ordering::SeqCst);
+        let shape_ok = matches!(
+            (spec.ret, out.ret),
+            (R::Ptr, Ret::Ptr(_)) | (R::Int, Ret::Int(_)) | (R::Bool, Ret::Bool(_)) | (R::Void, Ret::Void)
+        );
+        assert!(shape_ok, "harness table: return shape of {} does not match", spec.name);
         let msg = self.read_error()?;
         let changed = !msg.contains(&tag);
         let indicated = match out.ret {
@@ -1479,21 +1487,9 @@ impl Child {
     }
 }
 
-fn child_main() -> ! {
-    std::panic::set_hook(Box::new(|info| {
-        let loc = info.location().map(|l| format!("{}:{}", l.file(), l.line())).unwrap_or_default();
-        let msg = info
-            .payload()
-            .downcast_ref::<&str>()
-            .map(|s| s.to_string())
-            .or_else(|| info.payload().downcast_ref::<String>().cloned())
-            .unwrap_or_else(|| "panic".into());
-        emit(json!({"e": "panic", "in_call": IN_CALL.load(Ordering::SeqCst), "msg": format!("{loc}: {msg}")}));
-    }));
-    let mut txt = String::new();
-    std::io::stdin().read_to_string(&mut txt).expect("child: stdin");
-    let inp: ChildInput = serde_json::from_str(&txt).expect("child: input json");
-    let mut ch = Child::new(&inp);
+/// Runs one sequence to completion in the current (forked, single-threaded) process.
+fn run_sequence(inp: &ChildInput, pools: Pools) -> ! {
+    let mut ch = Child::new(inp, pools);
     for c in &inp.case.calls {
         if ch.call(c).is_err() {
             break;
@@ -1512,6 +1508,70 @@ fn child_main() -> ! {
     unsafe { libc::_exit(0) }
 }
 
+/// `--child`: a single-threaded server that has not touched the library yet. For every input line (one case) it
+/// forks; the forked process executes the sequence and streams its trace to the shared stdout; the server waits
+/// for it and reports how it ended. Forking (instead of exec per case) keeps a case at a few milliseconds.
+fn child_main() -> ! {
+    std::panic::set_hook(Box::new(|info| {
+        let loc = info.location().map(|l| format!("{}:{}", l.file(), l.line())).unwrap_or_default();
+        let msg = info
+            .payload()
+            .downcast_ref::<&str>()
+            .map(|s| s.to_string())
+            .or_else(|| info.payload().downcast_ref::<String>().cloned())
+            .unwrap_or_else(|| "panic".into());
+        emit(json!({"e": "panic", "in_call": IN_CALL.load(Ordering::SeqCst), "msg": format!("{loc}: {msg}")}));
+    }));
+    let mut pools = Some(Pools::new());
+    let stdin = std::io::stdin();
+    let mut line = String::new();
+    loop {
+        line.clear();
+        match std::io::BufRead::read_line(&mut stdin.lock(), &mut line) {
+            Ok(0) | Err(_) => unsafe { libc::_exit(0) },
+            Ok(_) => {}
+        }
+        let inp: ChildInput = match serde_json::from_str(&line) {
+            Ok(i) => i,
+            Err(e) => {
+                emit(json!({"e": "exit", "bad_input": e.to_string()}));
+                continue;
+            }
+        };
+        let pid = unsafe { libc::fork() };
+        if pid < 0 {
+            emit(json!({"e": "exit", "fork_failed": true}));
+            continue;
+        }
+        if pid == 0 {
+            unsafe { libc::dup2(1, 2) };
+            run_sequence(&inp, pools.take().unwrap());
+        }
+        // wall clock only decides when to give up on the forked process (=> inconclusive)
+        let start = std::time::Instant::now();
+        let mut status: c_int = 0;
+        let mut timed_out = false;
+        loop {
+            let r = unsafe { libc::waitpid(pid, &mut status, libc::WNOHANG) };
+            if r == pid {
+                break;
+            }
+            if r < 0 {
+                status = -1;
+                break;
+            }
+            if !timed_out && start.elapsed().as_secs() >= inp.timeout_s.max(1) {
+                timed_out = true;
+                unsafe { libc::kill(pid, libc::SIGKILL) };
+            }
+            std::thread::sleep(std::time::Duration::from_micros(500));
+        }
+        let signal = if status >= 0 && libc::WIFSIGNALED(status) { Some(libc::WTERMSIG(status)) } else { None };
+        let code = if status >= 0 && libc::WIFEXITED(status) { Some(libc::WEXITSTATUS(status)) } else { None };
+        emit(json!({"e": "exit", "signal": signal, "code": code, "timeout": timed_out}));
+    }
+}
+
 // ------------------------------------------------------------------------------------------------
 // parent: run one sequence in a child and judge the trace
 // ------------------------------------------------------------------------------------------------
@@ -1524,9 +1584,16 @@ struct Outcome {
     excluded: u64,
 }
 
-fn run_child(case: &Case, skip: &[String], selftest: u8, timeout_s: u64) -> Outcome {
-    let mut o = Outcome { fail: None, inconclusive: None, counts: BTreeMap::new(), nontrivial: false, excluded: 0 };
-    let input = json!({"case": case, "skip": skip, "selftest": selftest}).to_string();
+/// A running `--child` fork server.
+struct Zy {
+    proc: std::process::Child,
+    stdin: std::process::ChildStdin,
+    stdout: std::io::BufReader<std::process::ChildStdout>,
+}
+
+static ZYGOTES: std::sync::Mutex<Vec<Zy>> = std::sync::Mutex::new(Vec::new());
+
+fn spawn_zygote() -> Result<Zy, String> {
     let mut cmd = Command::new("/proc/self/exe");
     cmd.arg("--child")
         .env("MALLOC_CHECK_", "3")
@@ -1535,60 +1602,83 @@ fn run_child(case: &Case, skip: &[String], selftest: u8, timeout_s: u64) -> Outc
         .env("RUST_BACKTRACE", "0")
         .stdin(Stdio::piped())
         .stdout(Stdio::piped())
-        .stderr(Stdio::piped());
-    let mut child = match cmd.spawn() {
-        Ok(c) => c,
-        Err(e) => {
-            o.inconclusive = Some(format!("cannot spawn child: {e}"));
-            return o;
-        }
-    };
-    let mut stdin = child.stdin.take().unwrap();
-    let mut stdout = child.stdout.take().unwrap();
-    let mut stderr = child.stderr.take().unwrap();
-    let w = std::thread::spawn(move || {
-        let _ = stdin.write_all(input.as_bytes());
-    });
-    let t_out = std::thread::spawn(move || {
-        let mut s = String::new();
-        let _ = stdout.read_to_string(&mut s);
-        s
-    });
-    let t_err = std::thread::spawn(move || {
-        let mut s = Vec::new();
-        let _ = stderr.read_to_end(&mut s);
-        String::from_utf8_lossy(&s).into_owned()
-    });
-    // wall clock is used only to give up on a child (=> inconclusive), never in a verdict
-    let start = std::time::Instant::now();
-    let status = loop {
-        match child.try_wait() {
-            Ok(Some(st)) => break Some(st),
-            Ok(None) => {
-                if start.elapsed().as_secs() > timeout_s {
-                    let _ = child.kill();
-                    let _ = child.wait();
-                    break None;
-                }
-                std::thread::sleep(std::time::Duration::from_millis(3));
+        .stderr(Stdio::null());
+    let mut proc = cmd.spawn().map_err(|e| format!("cannot spawn fork server: {e}"))?;
+    let stdin = proc.stdin.take().unwrap();
+    let stdout = std::io::BufReader::new(proc.stdout.take().unwrap());
+    Ok(Zy { proc, stdin, stdout })
+}
+
+fn shutdown_zygotes() {
+    let mut g = ZYGOTES.lock().unwrap();
+    for mut z in g.drain(..) {
+        drop(z.stdin);
+        let _ = z.proc.wait();
+    }
+}
+
+fn run_child(case: &Case, skip: &[String], selftest: u8, timeout_s: u64) -> Outcome {
+    let mut o = Outcome { fail: None, inconclusive: None, counts: BTreeMap::new(), nontrivial: false, excluded: 0 };
+    let mut input = json!({"case": case, "skip": skip, "selftest": selftest, "timeout_s": timeout_s}).to_string();
+    input.push('\n');
+    let z = ZYGOTES.lock().unwrap().pop();
+    let mut z = match z {
+        Some(z) => z,
+        None => match spawn_zygote() {
+            Ok(z) => z,
+            Err(e) => {
+                o.inconclusive = Some(e);
+                return o;
             }
-            Err(_) => break None,
-        }
+        },
     };
-    let _ = w.join();
-    let out = t_out.join().unwrap_or_default();
-    let err = t_err.join().unwrap_or_default();
-    let Some(status) = status else {
-        o.inconclusive = Some(format!("child exceeded {timeout_s}s"));
+    if z.stdin.write_all(input.as_bytes()).and_then(|_| z.stdin.flush()).is_err() {
+        let _ = z.proc.kill();
+        let _ = z.proc.wait();
+        o.inconclusive = Some("fork server went away (write)".into());
+        return o;
+    }
+    let mut lines: Vec<String> = vec![];
+    let mut exit: Option<Value> = None;
+    loop {
+        let mut l = String::new();
+        match std::io::BufRead::read_line(&mut z.stdout, &mut l) {
+            Ok(0) | Err(_) => break,
+            Ok(_) => {
+                if l.starts_with("{\"e\":\"exit\"") {
+                    exit = serde_json::from_str(&l).ok();
+                    break;
+                }
+                lines.push(l);
+            }
+        }
+    }
+    let Some(exit) = exit else {
+        let _ = z.proc.kill();
+        let _ = z.proc.wait();
+        o.inconclusive = Some("fork server went away (read)".into());
         return o;
     };
+    ZYGOTES.lock().unwrap().push(z);
+    if exit["timeout"].as_bool().unwrap_or(false) {
+        o.inconclusive = Some(format!("child exceeded {timeout_s}s"));
+        return o;
+    }
+    if exit.get("bad_input").is_some() || exit.get("fork_failed").is_some() {
+        o.inconclusive = Some(format!("fork server: {exit}"));
+        return o;
+    }
+    let sig = exit["signal"].as_i64();
+    let code = exit["code"].as_i64();
+    // non-JSON lines are the stderr of the forked process (glibc abort messages, Rust abort notes)
+    let err: String = lines.iter().filter(|l| !l.starts_with('{')).map(|l| l.trim().to_string()).collect::<Vec<_>>().join(" / ");
 
     let mut last_pre: Option<Value> = None;
     let mut last_was_post = false;
     let mut done = false;
     let mut harness_panic: Option<String> = None;
     let mut trace: Vec<String> = vec![];
-    for line in out.lines() {
+    for line in lines.iter().filter(|l| l.starts_with('{')) {
         let Ok(v) = serde_json::from_str::<Value>(line) else { continue };
         match v["e"].as_str().unwrap_or("") {
             "pre" => {
@@ -1643,13 +1733,12 @@ fn run_child(case: &Case, skip: &[String], selftest: u8, timeout_s: u64) -> Outc
         return o;
     }
     // the child died
-    use std::os::unix::process::ExitStatusExt;
-    let how = match (status.signal(), status.code()) {
+    let how = match (sig, code) {
         (Some(s), _) => format!("killed by signal {s}"),
         (None, Some(c)) => format!("exit code {c}"),
         _ => "unknown status".to_string(),
     };
-    let err_tail: String = err.lines().rev().take(3).collect::<Vec<_>>().into_iter().rev().collect::<Vec<_>>().join(" / ");
+    let err_tail: String = err.chars().rev().take(200).collect::<Vec<_>>().into_iter().rev().collect();
     let tail: Vec<String> = trace.iter().rev().take(10).rev().cloned().collect();
     match last_pre {
         None => {
@@ -1661,13 +1750,15 @@ fn run_child(case: &Case, skip: &[String], selftest: u8, timeout_s: u64) -> Outc
             let sig = if last_was_post {
                 format!("C31:crash-after:{f}")
             } else if let Some(b) = p["bad"].as_str() {
-                format!("C31:crash:{b}")
+                // function:parameter (the class of the invalid pointer is part of the description)
+                format!("C31:crash:{}", b.rsplit_once(':').map(|x| x.0).unwrap_or(b))
             } else if phase != "seq" {
                 format!("C31:crash:{phase}:{f}:valid")
             } else {
                 format!("C31:crash:{f}:valid")
             };
-            o.fail = Some(Fail::new(sig, format!("child {how} in {f} (stderr: {err_tail}) | calls: {}", tail.join(" ; "))));
+            let bad = p["bad"].as_str().unwrap_or("all handles valid");
+            o.fail = Some(Fail::new(sig, format!("child {how} in {f} [{bad}] (stderr: {err_tail}) | calls: {}", tail.join(" ; "))));
         }
     }
     o
@@ -1714,10 +1805,13 @@ fn main() {
     let mut skip: Vec<String> = vec![];
     for s in SPECS {
         for (_, pname, _) in s.hs {
+            let coarse = format!("{}:{}", s.name, pname);
+            if run.is_known(&format!("C31:crash:{coarse}")) {
+                skip.push(coarse.clone());
+            }
             for cl in [Cl::Wrong, Cl::Freed, Cl::Null, Cl::Foreign] {
-                let key = format!("{}:{}:{}", s.name, pname, cl.name());
-                let known = ["crash", "no-error-indicator", "no-error-message"].iter().any(|p| run.is_known(&format!("C31:{p}:{key}")));
-                if known {
+                let key = format!("{coarse}:{}", cl.name());
+                if ["no-error-indicator", "no-error-message"].iter().any(|p| run.is_known(&format!("C31:{p}:{key}"))) {
                     skip.push(key);
                 }
             }
@@ -1749,19 +1843,24 @@ fn main() {
     };
 
     // ---- probes: one minimal sequence per known triple (prints KNOWN-FINDING when it still reproduces) -----
-    let probes: Vec<Case> = skip
-        .iter()
-        .filter_map(|key| {
-            let mut it = key.split(':');
-            let (f, p, c) = (it.next()?, it.next()?, it.next()?);
-            let fi = SPECS.iter().position(|s| s.name == f)?;
-            let pi = SPECS[fi].hs.iter().position(|h| h.1 == p)?;
-            let cl = [Cl::Wrong, Cl::Freed, Cl::Null, Cl::Foreign].iter().position(|x| x.name() == c)? as u8 + 1;
+    let mut probes: Vec<Case> = vec![];
+    for key in &skip {
+        let parts: Vec<&str> = key.split(':').collect();
+        let Some(fi) = SPECS.iter().position(|s| s.name == parts[0]) else { continue };
+        let Some(pi) = SPECS[fi].hs.iter().position(|h| h.1 == parts[1]) else { continue };
+        let all = [Cl::Wrong, Cl::Freed, Cl::Null, Cl::Foreign];
+        for (ci, cl) in all.iter().enumerate() {
+            if parts.len() == 3 && parts[2] != cl.name() {
+                continue;
+            }
+            if *cl == Cl::Null && SPECS[fi].null_ok & (1 << pi) != 0 {
+                continue;
+            }
             let mut h = [Sel { c: 0, i: 0 }; 4];
-            h[pi] = Sel { c: cl, i: 0 };
-            Some(Case { calls: vec![Call { f: fi as u8, h, v: [0; 3] }], probe: true })
-        })
-        .collect();
+            h[pi] = Sel { c: ci as u8 + 1, i: 0 };
+            probes.push(Case { calls: vec![Call { f: fi as u8, h, v: [0; 3] }], probe: true });
+        }
+    }
     run.drive_enum("probe", probes, |c| judge(c));
 
     // ---- fixed scenarios: every function once with every class on every handle parameter -------------------
@@ -1782,5 +1881,6 @@ fn main() {
     let strat = proptest::collection::vec(call_strategy(), 1..=40).prop_map(|calls| Case { calls, probe: false });
     let threads = run.scale(8, 12);
     run.drive_par("sequences", run.scale(400, 30_000), threads, strat, |c| judge(c));
+    shutdown_zygotes();
     run.finish();
 }
